@@ -160,14 +160,18 @@ impl<'a> Parser<'a> {
                         config_value: SetConfigValue::Default,
                         in_database,
                     }
-                } else if let Ok(expr) = self.parse_expr() {
-                    AlterRoleOperation::Set {
-                        config_name,
-                        config_value: SetConfigValue::Value(expr),
-                        in_database,
-                    }
                 } else {
-                    self.expected("config value", self.peek_token())?
+                    match self.parse_expr() {
+                        Ok(expr) => AlterRoleOperation::Set {
+                            config_name,
+                            config_value: SetConfigValue::Value(expr),
+                            in_database,
+                        },
+                        Err(ParserError::RecursionLimitExceeded) => {
+                            return Err(ParserError::RecursionLimitExceeded)
+                        }
+                        Err(_) => self.expected("config value", self.peek_token())?,
+                    }
                 }
             } else {
                 self.expected("'TO' or '=' or 'FROM CURRENT'", self.peek_token())?
